@@ -15,8 +15,9 @@ def main():
         cases = make_cases(beh, "bw", sizes, run, k0=k0)
         # bit identity: the same layouts with the value tokens mapped to -0.0, subnormals, f32::MAX, 0.1 ...
         weird = make_cases(beh[::7], "bw", sizes, run, vmap="weird", k0=k0)
-        for c in weird:
+        for k, c in enumerate(weird):
             c["opts"]["zooms"] = []
+            c["voff"] = k % 11          # rotate the table: -0.0, subnormal, MAX, MIN, 0.1, 1/3, smallest normal, -123.456, +inf, -inf, NaN
         got = judge(run, "C01", "Obs_BigWig", cases + weird, nt, desc)
         obs = obs or got[:2000]
         del cases, weird, got
